@@ -153,6 +153,46 @@ def h_budget(ctx, alpha):
               info={"alpha": alpha, "theta": str(theta)}, replay=rp)
 
 
+def replay_criteria_short(sc):
+    """the real criteria_giles with fewer than three level means (runs started at initial_level 0 or 1 reach their first bias test so)"""
+    out = []
+    for n in (1, 2):
+        ml = np.array([0.4, 0.1][:n])
+        try:
+            small, large = CR.criteria_giles(1.0, ml, 10.0), CR.criteria_giles(1.0, ml, 1e-6)
+        except Exception as e:
+            out.append(f"criteria_giles(alpha=1, ml={ml.tolist()}, rmse) raises {type(e).__name__}: {e}")
+            continue
+        if not bool(small) or bool(large):
+            out.append(f"criteria_giles(alpha=1, ml={ml.tolist()}, .) is {bool(small)} for rmse=10 and {bool(large)} for rmse=1e-6")
+    return bool(out), "; ".join(out) if out else "bias test defined for 1 and 2 level means"
+
+
+def h_criteria_short(ctx, n, alpha=1):
+    """a run started at initial_level < 2 reaches its first bias test with fewer than three level means: the test is still a comparison of the
+    (available) scaled means with a tolerance that depends on rmse only - the run does not die in the stopping test"""
+    rmse = ctx.real("rmse")
+    ctx.assume(rmse > 0)
+    ml = np.array([ctx.real(f"m{i}", 0) for i in range(n)], dtype=object)
+    rp = (replay_criteria_short, lambda m: {})
+    try:
+        res = CR.criteria_giles(alpha, ml, rmse)
+    except IndexError as e:
+        ctx.prove("C06.bias_test_is_defined_for_every_number_of_levels", False, info={"levels": n, "raised": repr(e)[:100]}, replay=rp)
+        return
+    ctx.prove("C06.bias_test_is_defined_for_every_number_of_levels", True)
+    t = res.t if isinstance(res, SymBool) else None
+    if t is None or t.decl().kind() not in (z3.Z3_OP_LE, z3.Z3_OP_GE):
+        raise Unsupported(f"criteria_giles did not return a comparison: {res}")
+    lhs, rhs = t.children()
+    if t.decl().kind() == z3.Z3_OP_GE:
+        lhs, rhs = rhs, lhs
+    want = ml[n - 1]
+    for k in range(1, n):
+        want = V.smax(want, ml[n - 1 - k] / 2 ** (k * alpha))
+    ctx.prove("C06.bias_test_compares_scaled_last_three_means", EQ(SymReal(lhs), want / (2**alpha - 1)), info={"alpha": alpha, "levels": n}, replay=rp)
+
+
 def replay_loop(sc):
     ok, detail = replay_run(sc)
     return ok, detail
@@ -327,6 +367,8 @@ def harnesses(tier):
         hs.append(Harness(f"alloc.zero.{n}", h_alloc, {"n": n, "zero_cost": True}, max_paths=4000))
     for alpha in (1, 2):
         hs.append(Harness(f"budget.{alpha}", h_budget, {"alpha": alpha}, max_paths=200))
+    for n in (1, 2):
+        hs.append(Harness(f"criteria.levels{n}", h_criteria_short, {"n": n}, max_paths=200))
     cfgs = [(0, 1, 1, 2, 4), (1, 1, 1, 2, 4), (1, 1, 2, 1, 4)] if q else \
         [(0, 1, 1, 3, 4), (0, 2, 1, 3, 4), (1, 1, 1, 3, 4), (1, 1, 2, 2, 3), (1, 2, 2, 3, 2), (2, 1, 3, 1, 4), (0, 1, 2, 2, 3), (0, 3, 0, 4, 5)]
     for il, n0, lm, b, ps in cfgs:
